@@ -56,6 +56,7 @@ type NodeCfg struct {
 	Filter    []string
 	Tune      func(*litefs.Store) // adjust delays/retention before Open
 	StrictOff bool
+	EvictPct  int // page-cache eviction chance per read (percent)
 }
 
 // Node is one simulated LiteFS process: a real Store, a real (unmounted) FUSE
@@ -101,7 +102,9 @@ func (n *Node) Open() error {
 	r := n.r
 	n.OS = &SimOS{r: r, node: n.ID}
 	st := litefs.NewStore(n.Dir, n.Cfg.Candidate)
-	st.VerifSetID(uint64(n.ID))
+	// A real node draws a new random id at every start; ids here are distinct
+	// per (node, generation) and deterministic.
+	st.VerifSetID(uint64(n.ID)*1000 + uint64(n.Gen) + 1)
 	st.OS = n.OS
 	st.Leaser = n.Cfg.Leaser
 	st.Client = n.Cfg.Client
@@ -117,6 +120,7 @@ func (n *Node) Open() error {
 	n.FS = lfuse.NewFileSystem(filepath.Join(r.Dir, n.Name+"-mnt"), st)
 	st.Invalidator = n.FS
 	n.K = NewKernel(r, n.ID, n.FS)
+	n.K.EvictPct = n.Cfg.EvictPct
 	n.Server = lhttp.NewServer(st, ":0")
 	n.Handler = n.Server.VerifHandler()
 	n.Exited, n.ExitCode, n.ExitImage = false, 0, ""
